@@ -888,8 +888,10 @@ impl World {
             Ok(out) => format!("ok{}", out.bits()),
             Err(e) => show_io(&e),
         });
+        // INIT never waits for the parked mount (which holds no lock inside its backend's mount()):
+        // let it finish completely before the mount goes on, whatever the machine's load
         let t0 = std::time::Instant::now();
-        while !tb.is_finished() && t0.elapsed() < Duration::from_millis(25) {
+        while !tb.is_finished() && t0.elapsed() < Duration::from_secs(10) {
             std::thread::sleep(Duration::from_micros(200));
         }
         let _ = gtx.send(());
@@ -951,8 +953,9 @@ impl World {
                     Ok(e) => show_entry(&e),
                     Err(e) => show_io(&e),
                 });
+                // the LOOKUP takes no lock: it finishes on its own
                 let t0 = std::time::Instant::now();
-                while !tb.is_finished() && t0.elapsed() < Duration::from_millis(25) {
+                while !tb.is_finished() && t0.elapsed() < Duration::from_secs(10) {
                     std::thread::sleep(Duration::from_micros(200));
                 }
                 let _ = gtx.send(());
